@@ -46,7 +46,7 @@ const stepBudget = 5 * time.Second
 type l3Case struct {
 	ShutdownS  int    `json:"shutdown_s"`
 	Signal     string `json:"signal"` // TERM | INT
-	Point      string `json:"point"`  // before-answer | mid-body | idle
+	Point      string `json:"point"`  // before-answer | mid-body | idle | half-sent-head (the client has sent the request line and one header field; the rest of the head follows ReleaseMs after the signal; the backend answers at once)
 	Status     int    `json:"status,omitempty"`
 	Framing    string `json:"framing,omitempty"` // cl | chunked
 	Part1      int    `json:"part1,omitempty"`
@@ -63,9 +63,19 @@ type l3Case struct {
 	Metrics    bool   `json:"metrics_listener,omitempty"`
 }
 
+// halfSent is ready at once for the half-sent-head point (nothing can have arrived at the backend
+// yet) and never otherwise.
+func halfSent(c l3Case) <-chan struct{} {
+	ch := make(chan struct{})
+	if c.Point == "half-sent-head" {
+		close(ch)
+	}
+	return ch
+}
+
 func genL3(rt *rapid.T) l3Case {
 	c := l3Case{ShutdownS: rapid.IntRange(2, 4).Draw(rt, "shutdown"), Signal: rapid.SampledFrom([]string{"TERM", "INT"}).Draw(rt, "signal"),
-		Point: rapid.SampledFrom([]string{"before-answer", "before-answer", "mid-body", "mid-body", "idle"}).Draw(rt, "point")}
+		Point: rapid.SampledFrom([]string{"before-answer", "before-answer", "mid-body", "mid-body", "idle", "half-sent-head", "half-sent-head"}).Draw(rt, "point")}
 	if c.Point != "idle" {
 		c.Status = rapid.SampledFrom([]int{200, 200, 201, 404}).Draw(rt, "status")
 		c.Framing = rapid.SampledFrom([]string{"cl", "chunked"}).Draw(rt, "framing")
@@ -81,8 +91,13 @@ func genL3(rt *rapid.T) l3Case {
 				c.ReadFirst = c.Part1 - 8192
 			}
 		}
-		c.Over = rapid.IntRange(0, 6).Draw(rt, "outlasts") == 0
-		if !c.Over {
+		c.Over = c.Point != "half-sent-head" && rapid.IntRange(0, 6).Draw(rt, "outlasts") == 0
+		if c.Point == "half-sent-head" {
+			// the rest of the request head follows this long after the signal (well inside the 5 s
+			// for which net/http's Shutdown leaves alone a connection whose first request is still
+			// being read)
+			c.ReleaseMs = rapid.SampledFrom([]int{0, 20, 200, 500}).Draw(rt, "rest_after_ms")
+		} else if !c.Over {
 			c.ReleaseMs = rapid.SampledFrom([]int{0, 20, 200, 600, (c.ShutdownS - 1) * 1000}).Draw(rt, "release_ms")
 		}
 	}
@@ -216,9 +231,10 @@ func runL3(t testing.TB, c l3Case) (r l3Result) {
 		id := fmt.Sprintf("c19-%d", l3Seq.Add(1))
 		script := &lab.RespScript{Status: c.Status, Framing: c.Framing, Body: body, BodyLen: len(body), Parts: []int{c.Part1, c.Part2}, BarrierAfter: -1,
 			Header: []lab.KV{{K: "Content-Type", V: "application/octet-stream"}}}
-		if c.Point == "before-answer" {
+		switch c.Point {
+		case "before-answer":
 			script.Hold = true
-		} else {
+		case "mid-body":
 			script.BarrierAfter = 0
 		}
 		ex = be.Expect(id, script)
@@ -229,17 +245,42 @@ func runL3(t testing.TB, c l3Case) (r l3Result) {
 		}
 		defer cc.Close()
 		req := &lab.RawRequest{Method: "GET", Target: "/c19/" + id, Framing: "none", Header: []lab.KV{{K: "Host", V: "helios.test"}, {K: "X-Verif-Case", V: id}}}
-		if err := cc.Send(req); err != nil {
+		if c.Point == "half-sent-head" {
+			// only the beginning of the head is on the wire when the signal is sent
+			if _, err := cc.C.Write([]byte("GET /c19/" + id + " HTTP/1.1\r\nHost: helios.test\r\n")); err != nil {
+				r.Harness = "cannot send the request: " + err.Error()
+				return
+			}
+			time.Sleep(30 * time.Millisecond) // let the proxy read what there is
+			rest := []byte("X-Verif-Case: " + id + "\r\n\r\n")
+			go func() {
+				time.Sleep(time.Duration(c.ReleaseMs) * time.Millisecond) // ~ after the signal: it is sent right below
+				if _, err := cc.C.Write(rest); err != nil {
+					readDone <- "the client could not send the rest of its request head after the signal: " + err.Error()
+					return
+				}
+				o, resp, e := cc.ReadHead("GET", time.Duration(c.ShutdownS+3)*time.Second)
+				if e != nil {
+					readDone <- "the client received no response: " + e.Error()
+					return
+				}
+				cc.Finish(o, resp, nil, time.Duration(c.ShutdownS+3)*time.Second)
+				readDone <- judgeResponse(c, o, body)
+			}()
+		} else if err := cc.Send(req); err != nil {
 			r.Harness = "cannot send the request: " + err.Error()
 			return
 		}
 		select {
+		case <-halfSent(c):
 		case <-lab.Arrived(ex):
 		case <-time.After(stepBudget):
 			r.Harness = "the request did not reach the backend within " + stepBudget.String() + " (before any signal)"
 			return
 		}
-		if c.Point == "mid-body" {
+		if c.Point == "half-sent-head" {
+			// the client goroutine above does the rest
+		} else if c.Point == "mid-body" {
 			var e error
 			o, resp, e := cc.ReadHead("GET", stepBudget)
 			if e != nil {
@@ -340,7 +381,7 @@ func judgeResponse(c l3Case, out *lab.RawResponse, body []byte) string {
 
 func TestC19Signals(t *testing.T) {
 	sub := lab.Sub(l3Name, "rapid: the real helios binary (timeouts.shutdown 2-4 s, one scripted raw TCP backend, optional metrics listener, active checks off / interval 2-3 s answered / interval 10 s timeout 9 s with probes that hang in the backend) receives SIGTERM or SIGINT "+
-		"at a drawn point: no request in flight; a request that reached the backend which has not answered (released 0-(timeout-1) s after the signal); a response of whose first body part (1 B-64 KiB) the client has read everything the proxy must have passed on (all of it when chunked, all but 8 KiB when CL-framed) while the backend waits on a barrier before part 2 (1 B-200 kB; CL or chunked; status 200/201/404); "+
+		"at a drawn point: no request in flight; a request of which only the request line and one header field have been sent (the rest of the head follows 0-500 ms after the signal, the backend answers at once); a request that reached the backend which has not answered (released 0-(timeout-1) s after the signal); a response of whose first body part (1 B-64 KiB) the client has read everything the proxy must have passed on (all of it when chunked, all but 8 KiB when CL-framed) while the backend waits on a barrier before part 2 (1 B-200 kB; CL or chunked; status 200/201/404); "+
 		"1 in 7 requests is never finished by the backend (outlasts the shutdown timeout); 1 in 3 cases sends a second SIGTERM/SIGINT 0-100 ms later, during the shutdown; "+
 		"oracle: the in-flight request is received complete and exact, the process exits within shutdown timeout + 2 s with status 0 (status not asserted for the outlasting request) and no panic trace, the backend sees nothing after the exit; non-trivial = a request is in flight when the signal arrives")
 	sub.NontrivialFloor(0.60)
